@@ -119,6 +119,8 @@ def cases(tier, seed):
             yield {"kind": "per", "sys": sysname, "k": kname}
     for sysname in per:
         yield {"kind": "perpath", "sys": sysname}
+        if tier == "thorough" or sysname.startswith("kp_") or sysname in ("Chiral", "Haldane"):
+            yield {"kind": "persplit", "sys": sysname}
     # gauge, single k (evaluate_k): every combination of letters over the multiplets
     for sysname, (spec, mult) in point.items():
         dims = [m for m in mult if m > 1]
@@ -153,7 +155,7 @@ def cases(tier, seed):
 def _spec(case):
     per, point, allk = _all_tables()
     name = case["sys"]
-    if case["kind"] in ("per", "perpath"):
+    if case["kind"] in ("per", "perpath", "persplit"):
         return dict(per[name]), None
     from wbmc import zoo
     if name in point:
@@ -299,6 +301,43 @@ def run_per(case, seed):
                     "detail": f"system={case['sys']} k={k.tolist()} G={list(G)}: {_fmt(bad)}"}
     return {"ok": True, "nontrivial": ("per", case["sys"], case["k"]) if per.any() else False,
             "obs": {"outputs": len(base), "G": len(_G_list())}}
+
+
+def run_persplit(case, seed):
+    """k and k+G tabulated in SEPARATE one-point Path runs (inside one tabulation self_to_path identifies equivalent
+    k-points, and grid mode reduces k modulo 1 before the system sees it): the system's own wrapping of k is exercised,
+    in particular on the faces of a k.p box (half-integer reduced coordinates)"""
+    import os
+    import wannierberri as wb
+    from wannierberri.calculators import tabulate
+    from wbmc import kres, zoo
+    spec, _ = _spec(case)
+    s = kres.build_system(spec, seed)
+    ks = [np.array(v, dtype=float) for v in zoo.K_ALPHABET.values()]
+    Gs = [np.array(g, dtype=float) for g in _G_list()]
+
+    def one(k):
+        tabs = kres.tabulators(s, "full")
+        tabs.pop("Energy", None)
+        calc = {"tab": tabulate.TabulatorAll(tabs, mode="path")}
+        with kres.rundir("c04") as d:
+            res = wb.run(s, grid=wb.Path(s, k_list=[list(k)]), calculators=calc, parallel=False,
+                         fout_name=os.path.join(d, "result"), file_Klist_path=os.path.join(d, "_tmp_wb"),
+                         print_progress_step_time=1e9)
+            arr = kres.to_arrays(res.results)
+        arr.pop("tab/kpoints")
+        return {n: a[0] for n, a in arr.items()}, kres.units_of(calc)
+    n = 0
+    for k in ks:
+        base, units = one(k)
+        for G in Gs:
+            got, _ = one(k + G)
+            n += 1
+            bad = kres.diff_report(base, got, RTOL, units)
+            if bad:
+                return {"ok": False, "key": "periodicity:separate_paths:" + _site(bad[0][0]), "nontrivial": True,
+                        "detail": f"system={case['sys']} k={k.tolist()} G={G.tolist()} (two one-point Path runs): {_fmt(bad)}"}
+    return {"ok": True, "nontrivial": ("persplit", case["sys"]), "obs": {"pairs": n}}
 
 
 def run_perpath(case, seed):
@@ -455,6 +494,8 @@ def run_case(case, seed):
         return run_per(case, seed)
     if kind == "perpath":
         return run_perpath(case, seed)
+    if kind == "persplit":
+        return run_persplit(case, seed)
     if kind == "gk":
         return run_gk(case, seed)
     return run_grun(case, seed)
